@@ -1389,12 +1389,34 @@ def mub_cases(tier, seed):
                     if form != "list1d" and mod not in ("none", "rotm"):
                         continue
                     yield {"d": d, "bases": sub, "mod": mod, "form": form}
+    yield from blockdev_cases()
+
+
+BLOCKDEV4 = 0.5 * np.array([[1, 1, 1, 1], [1j, -1j, -1, 1], [-(1 + 1j), 0, 1j, 1], [0, -(1 - 1j), -1j, 1]], dtype=complex)
+
+
+def blockdev_cases():
+    """Two orthonormal bases of C^4 whose overlap matrix is flat except on a 2x2 block, under every placement of that block
+    (all row permutations x six column permutations x both listing orders): added after seeded change C16-6, which only tested the
+    overlaps with l >= k."""
+    cols = [(0, 1, 2, 3), (2, 3, 0, 1), (0, 2, 1, 3), (3, 2, 1, 0), (1, 3, 0, 2), (2, 0, 3, 1)]
+    for rp in itertools.permutations(range(4)):
+        for cp in cols:
+            for order in (0, 1):
+                yield {"d": 4, "blockdev": True, "rows": list(rp), "cols": list(cp), "order": order, "mod": "blockdev", "form": "list1d", "bases": []}
+
+
+def blockdev_vectors(case):
+    U = BLOCKDEV4[case["rows"], :][:, case["cols"]]
+    bu = [U[k].copy() for k in range(4)]
+    be = [np.eye(4, dtype=complex)[k] for k in range(4)]
+    return (bu + be) if case["order"] == 0 else (be + bu)
 
 
 def mub_check(case):
     sp = _sp()
     d = case["d"]
-    vs = mub_vectors(case)
+    vs = blockdev_vectors(case) if case.get("blockdev") else mub_vectors(case)
     arg = _as_form(vs, case["form"])
     snap = [v.copy() for v in vs]
     cross, blocks = P.mub_verdict(vs, d)
@@ -1872,7 +1894,9 @@ def gram_vector_sets(d, tier):
 def gram_cases(tier, seed):
     for d in (2, 3, 4) if tier == "quick" else (2, 3, 4, 5):
         for names in gram_vector_sets(d, tier):
-            for field in ("c", "r"):
+            # field "n" = natural dtypes: every vector in the narrowest dtype that holds it (int for 0/1 vectors, float for real ones,
+            # complex otherwise), so one list mixes dtypes - after seeded change C16-5 (buffer dtype taken from the first vector only)
+            for field in ("c", "r", "n"):
                 for scale in ("unit", "scaled"):
                     for form in ("1d", "col"):
                         if form == "col" and scale == "scaled":
@@ -1891,7 +1915,14 @@ def _gram_vectors(case):
                 v = np.ascontiguousarray(cat.ket(d, n).real)
         if case["scale"] == "scaled":
             v = v * (0.5 + k)
+        if case["field"] == "n" and np.abs(np.asarray(v).imag).max() == 0:
+            v = np.ascontiguousarray(np.asarray(v).real)
+            if np.all(v == np.round(v)):
+                v = v.astype(np.int64)
         vs.append(v.reshape(-1, 1) if case["form"] == "col" else v)
+    if case["field"] == "n":
+        # narrowest dtype first (the order in which a user would typically write |0>, |+>, |+i>)
+        vs.sort(key=lambda a: {"i": 0, "f": 1, "c": 2}[np.asarray(a).dtype.kind])
     return vs
 
 
